@@ -1,1 +1,111 @@
 //! Verification hooks for the `decoders` domain (`--cfg litep2p_verif` only).
+//!
+//! Re-exports of the decoders that consume bytes chosen by a remote peer, plus a real
+//! [`Substream`](crate::substream::Substream) over an in-memory yamux connection so that the
+//! substream codecs can be fed raw bytes.
+
+pub use crate::{
+    codec::ProtocolCodec,
+    config::Role,
+    crypto::noise::{
+        handshake as noise_handshake, verif as noise_payload, HandshakeTransport, NoiseSocket,
+        MAX_FRAME_LEN as NOISE_MAX_FRAME_LEN,
+    },
+    multistream_select::{
+        dialer_select_proto, listener_select_proto,
+        verif_decoders::{
+            webrtc_encode_multistream_message, LengthDelimited, LengthDelimitedReader, MessageIO,
+            MessageReader, MAX_FRAME_SIZE as MSS_MAX_FRAME_SIZE,
+        },
+        webrtc_listener_negotiate, HandshakeResult, HeaderLine, ListenerSelectResult, Message,
+        Negotiated, NegotiationError as MssNegotiationError, Protocol, ProtocolError, Version,
+        WebRtcDialerState, PROTO_MULTISTREAM_1_0,
+    },
+    protocol::libp2p::{
+        identify::verif::{IdentifyHarness, IdentifyInfo, IDENTIFY_PAYLOAD_SIZE},
+        kademlia::verif::{
+            ConnectionType, ContentProvider, KademliaMessage, KademliaPeer, Record, RecordKey,
+        },
+    },
+    substream::{verif_read_payload_size as read_payload_size, Substream},
+};
+
+use crate::{transport::tcp, types::SubstreamId, BandwidthSink, PeerId};
+
+use futures::StreamExt;
+use tokio_util::compat::{Compat, FuturesAsyncReadCompatExt, TokioAsyncReadCompatExt};
+
+/// Raw end of an in-memory yamux stream.
+pub type RawStream = Compat<crate::yamux::Stream>;
+
+/// Keeps the in-memory yamux connection of [`substream_over_yamux`] open; dropping it (and
+/// both stream ends) lets the two driver tasks finish.
+pub struct YamuxGuard {
+    _control: crate::yamux::Control,
+    _inbound: tokio::sync::mpsc::Receiver<crate::yamux::Stream>,
+}
+
+/// A real TCP-flavoured [`Substream`] with `codec` on one end of an in-memory yamux
+/// connection and the raw yamux stream of the other end.
+///
+/// `substream_is_dialer` selects which end opened the stream; yamux announces a stream
+/// with its first frame, so the opening end has to write first. Must be called from
+/// within a tokio runtime: both connections are driven by spawned tasks for as long as
+/// the streams are alive.
+pub async fn substream_over_yamux(
+    codec: ProtocolCodec,
+    substream_is_dialer: bool,
+) -> (Substream, RawStream, YamuxGuard) {
+    let (client_io, server_io) = tokio::io::duplex(256 * 1024);
+    let client = crate::yamux::Connection::new(
+        client_io.compat(),
+        crate::yamux::Config::default(),
+        crate::yamux::Mode::Client,
+    );
+    let mut server = crate::yamux::Connection::new(
+        server_io.compat(),
+        crate::yamux::Config::default(),
+        crate::yamux::Mode::Server,
+    );
+    let (mut control, mut client) = crate::yamux::Control::new(client);
+    let (tx, mut rx) = tokio::sync::mpsc::channel(1);
+
+    tokio::spawn(async move { while let Some(Ok(_)) = client.next().await {} });
+    tokio::spawn(async move {
+        while let Some(Ok(stream)) =
+            futures::future::poll_fn(|cx| server.poll_next_inbound(cx)).await
+        {
+            let _ = tx.send(stream).await;
+        }
+    });
+
+    let mut outbound = control.open_stream().await.expect("in-memory yamux stream to open");
+    {
+        // announce the stream: a zero-length write is not enough, so the opening end
+        // flushes one byte that the accepting end consumes again
+        use futures::{AsyncReadExt, AsyncWriteExt};
+        outbound.write_all(&[0u8]).await.expect("in-memory write");
+        outbound.flush().await.expect("in-memory flush");
+        let mut inbound = rx.recv().await.expect("inbound yamux stream");
+        let mut byte = [0u8; 1];
+        inbound.read_exact(&mut byte).await.expect("in-memory read");
+
+        let (ours, theirs) = match substream_is_dialer {
+            true => (outbound, inbound),
+            false => (inbound, outbound),
+        };
+        (
+            Substream::new_tcp(
+                PeerId::random(),
+                SubstreamId::from(0usize),
+                tcp::Substream::new(ours.compat(), BandwidthSink::new(), None),
+                codec,
+            ),
+            theirs.compat(),
+            YamuxGuard {
+                _control: control,
+                _inbound: rx,
+            },
+        )
+    }
+}
